@@ -318,11 +318,11 @@ def fmod(ctx, x, y):
 
 @defun
 def degrees(ctx, x):
-    return x / ctx.degree
+    return ctx.convert(x) / ctx.degree
 
 @defun
 def radians(ctx, x):
-    return x * ctx.degree
+    return ctx.convert(x) * ctx.degree
 
 def _lambertw_special(ctx, z, k):
     # W(0,0) = 0; all other branches are singular
